@@ -77,7 +77,8 @@ def removeOfJson (self : Flav) (j : Json) : Except String Cmd := do
   let name ← jstr j "name"
   let ver ← jstr j "version"
   let noaction ← jboolD j "noaction"
-  pure (Cmd.remove self name ver noaction)
+  let recursive ← jboolD j "recursive"
+  pure (Cmd.remove self name ver recursive noaction)
 
 def cmdOfJson (j : Json) : Except String WCmd := do
   let op ← (← j.getObjVal? "op").getStr?
@@ -114,6 +115,7 @@ def ofOutcome : Outcome → Json
   | .refused => "Refused"
   | .notFound => "NotFound"
   | .failed => "Other:RuntimeError"
+  | .tableMissing => "Other:TableFileNotFound"
 def ofTagOpt : Option Tag → Json
   | none => Json.null
   | some t => ofStr t
